@@ -94,6 +94,12 @@ impl Server for ScriptServer {
     }
 }
 
+impl Server for Box<dyn Server> {
+    fn on_connect(&mut self, conn: &mut Conn) -> bool { (**self).on_connect(conn) }
+    fn on_send(&mut self, conn: &mut Conn, data: &[u8]) -> bool { (**self).on_send(conn, data) }
+    fn on_recv(&mut self, conn: &mut Conn) { (**self).on_recv(conn) }
+}
+
 /// Wrap a closure as a server (reacts to sends only).
 pub struct FnServer<F: FnMut(&mut Conn, &[u8]) -> bool>(pub F);
 impl<F: FnMut(&mut Conn, &[u8]) -> bool> Server for FnServer<F> {
@@ -108,6 +114,9 @@ pub struct Net {
     pub total_ops: u64,
     pub delivered: u64,
     pub delivered_bytes: u64,
+    /// every datagram / stream handed to the client: (connection, bytes)
+    pub delivered_data: Vec<(u64, Vec<u8>)>,
+    pub keep_delivered: bool,
     pub step_limit: u64,
     pub total_limit: u64,
 }
@@ -121,7 +130,7 @@ pub struct StepLimit {
 
 impl Net {
     fn new() -> Self {
-        Self { log: Vec::new(), conns: Vec::new(), silent_ops: 0, total_ops: 0, delivered: 0, delivered_bytes: 0, step_limit: 4096, total_limit: 1 << 20 }
+        Self { log: Vec::new(), conns: Vec::new(), silent_ops: 0, total_ops: 0, delivered: 0, delivered_bytes: 0, delivered_data: Vec::new(), keep_delivered: true, step_limit: 4096, total_limit: 1 << 20 }
     }
 
     pub fn sends(&self) -> Vec<(u64, &[u8])> {
@@ -232,6 +241,9 @@ impl Transport for Shim {
             Some(d) => {
                 net_ref.delivered += 1;
                 net_ref.delivered_bytes += d.len() as u64;
+                if net_ref.keep_delivered {
+                    net_ref.delivered_data.push((conn, d.clone()));
+                }
                 net_ref.tick(false);
                 Ok(d)
             }
